@@ -607,6 +607,97 @@ fn send_mode(out: &mut Out, rng: &mut Rng, thorough: bool) {
             return;
         }
     }
+    // ---- hang-ups while the session is still in the header phase (front_hup / back_hup of a non-pipe state):
+    // nothing may be forwarded, the worker must survive and the next session must be exact
+    {
+        let ops = vec!["mode=send client connects and closes at once (x3), then backend accepts and closes at once".to_string()];
+        out.case("send:hup-in-header-phase");
+        for _ in 0..3 {
+            if let Some(c) = conn(out, front, &ops) {
+                c.close();
+            }
+        }
+        std::thread::sleep(Duration::from_millis(30));
+        while let Some(b) = be.try_accept() {
+            // a backend connection may have been opened: at most the header, never anything else
+            let mut b = b;
+            let _ = b.read_until_closed_or(Duration::from_millis(300));
+            if b.received.len() > 28 || (!b.received.is_empty() && b.received[..b.received.len().min(12)] != SIG[..b.received.len().min(12)]) {
+                out.fail("send-payload-differs", format!("a client that sent nothing produced {} backend bytes: {}", b.received.len(), hex(&b.received)), ops.clone());
+            }
+        }
+        if let Some(mut c) = conn(out, front, &ops) {
+            // the first backend connection is closed right after accept: sozu sees a failed connect (HUP while
+            // connecting) and reconnects; the following ones are closed once the header has arrived (pipe phase):
+            // then the backend's end-of-stream must reach the silent client
+            let mut first = true;
+            while let Ok(mut b) = be.accept(Duration::from_millis(if first { 3000 } else { 700 })) {
+                if !first {
+                    let _ = b.read_until_len(28, Duration::from_secs(1));
+                    if b.received.len() != 28 {
+                        out.fail("send-header-wrong", format!("after a backend that closed during the connect, the next backend connection received {} header bytes", b.received.len()), ops.clone());
+                    }
+                }
+                first = false;
+                b.close();
+            }
+            let end = c.read_until_closed_or(Duration::from_secs(2));
+            if !matches!(end, ReadEnd::Closed | ReadEnd::Reset) || !c.received.is_empty() {
+                out.fail("tcp-backend-eof-not-propagated", format!("every backend connection was closed by the backend; client read ended {end:?} with {} bytes", c.received.len()), ops.clone());
+            }
+        }
+        out.nontrivial += 1;
+        if !watchdog(&mut w, out, "hang-ups in the header phase", &ops) {
+            return;
+        }
+    }
+    // ---- the first backend refuses the connection: the session retries on the other backend; the header
+    // must still arrive exactly once, before the payload (same for a plain cluster: payload exact)
+    for (mode, pp) in [("send", Some(ProxyProtocolConfig::SendHeader)), ("none", None)] {
+        let Some(front2) = setup(out, "listener", || w.add_tcp_listener()) else { continue };
+        let Some(live) = setup(out, "backend", MockBackend::listen) else { continue };
+        let Some(dead) = setup(out, "backend", || dead_addr().map_err(|e| RigError::Io(format!("{e}")))) else { continue };
+        let cid = format!("retry-{mode}");
+        if setup(out, "route", || w.add_tcp_route(front2, &cid, dead.addr, pp)).is_none() {
+            continue;
+        }
+        if setup(out, "route", || w.add_backend(&cid, "live", live.addr)).is_none() {
+            continue;
+        }
+        for i in 0..4 {
+            let ops = vec![format!("mode={mode} cluster with a refusing backend and a live one, connection {i}")];
+            out.case("connect-retry");
+            let Some(mut c) = conn(out, front2, &ops) else { continue };
+            let data = payload(rng, 200);
+            // the payload is written once the backend side is up (bytes + nothing else in flight; F14 is not the subject)
+            let mut b = match live.accept(Duration::from_secs(4)) {
+                Ok(b) => b,
+                Err(e) => {
+                    out.fail("tcp-no-backend-connection", format!("{mode}: no connection reached the live backend after the refused attempt(s): {e}"), ops.clone());
+                    continue;
+                }
+            };
+            let _ = c.write_all(&data, T);
+            let hdr = if pp.is_some() { v2_header(c.local_addr().unwrap_or(front2), front2) } else { vec![] };
+            let _ = b.read_until_len(hdr.len() + data.len(), T);
+            let want = [hdr.clone(), data.clone()].concat();
+            if b.received != want {
+                let class = if pp.is_some() && (b.received.len() < hdr.len() || b.received[..hdr.len()] != hdr[..]) { "send-header-wrong" } else if find(&b.received[hdr.len().min(b.received.len())..], &SIG).is_some() { "send-header-duplicated" } else { "tcp-bytes-differ-client-to-backend" };
+                out.fail(class, format!("{mode} after a refused backend connection: backend received {} bytes, expected {} (header {} + payload {})", b.received.len(), want.len(), hdr.len(), data.len()), ops.clone());
+            }
+            let _ = b.write_all(b"ok", T);
+            let _ = c.read_until_len(2, T);
+            if c.received != b"ok" {
+                out.fail("tcp-bytes-differ-backend-to-client", format!("{mode} after a refused backend connection: client received {:?}", c.received), ops.clone());
+            }
+            out.nontrivial += 1;
+            drop(c);
+            if !watchdog(&mut w, out, "a connect-retry case", &ops) {
+                return;
+            }
+        }
+        drop(dead);
+    }
     // ---- address families: listener on 127.0.0.1 / [::1] / [::] (dual stack) x client over IPv4 / IPv6.
     // The header must carry exactly the addresses the kernel reports on the accepted socket
     // (for a v4 client on the dual-stack listener: both v4-mapped IPv6), family byte included.
